@@ -302,4 +302,238 @@ theorem body_step (env : Env) (hcb : CbOk env) (s : Bytes) (io coe : Bool) (fe :
                 · exact ⟨_, _, ⟨rfl, rfl⟩, hl, rfl⟩
                 · close_adv (p + mi.length_value.toNat)
 
+
+/-! ### the loop -/
+
+theorem body_none (env : Env) (s : Bytes) (io coe : Bool) (fe : Option (List Char)) (sro : Option Py.Obj)
+    (v : Locals) (j : Nat) (hinv : Inv s io coe fe sro v j) (hj : j ≤ s.length) (hk : findSig (s.drop j) = none) :
+    ∃ v', while_1.body env v = .ret v' ∧ v'.py_yields = v.py_yields := by
+  obtain ⟨vs, vio, vcoe, vfe, vsr, vidx, vmatched, vmsg, vu, vb, vd, ve, vy⟩ := v
+  obtain ⟨h1, h2, h3, h4, h5, h6⟩ := hinv
+  simp only at h1 h2 h3 h4 h5 h6
+  subst h1 h2 h3 h4 h5 h6
+  have hfind : Py.seqFind vs MESSAGE_START_SIGNATURE (j : Int) = -1 := by
+    rw [seqFind_findSig vs j hj, hk]
+  simp [while_1.body, Py.Flow.bind, hfind]
+
+theorem cond_iff (env : Env) (s : Bytes) (io coe : Bool) (fe : Option (List Char)) (sro : Option Py.Obj)
+    (v : Locals) (j : Nat) (hinv : Inv s io coe fe sro v j) : while_1.cond env v = decide (j < s.length) := by
+  simp [while_1.cond, hinv.hs, hinv.hidx]
+
+/-- the values the generator yields for a list of items of the model -/
+def yieldsOf (io : Bool) (items : List (Item Msg)) : List Msg := items.map (pyMsg io)
+
+/-- an iteration that advances by 0 leaves the scan position where it is: the loop repeats it (yielding the same
+    message again each time when there is one) until the fuel is gone -/
+theorem stuck (env : Env) (hcb : CbOk env) (s : Bytes) (io coe : Bool) (fe : Option (List Char))
+    (sro : Option Py.Obj) (sr : Py.Obj) (hsro : Py.truthyOptSeq fe = true → sro = some sr) (y : Option (Bytes × MsgInfo Msg))
+    (ym : List Msg) :
+    ∀ (fuel : Nat) (v : Locals) (j k : Nat), Inv s io coe fe sro v j → j ≤ s.length → findSig (s.drop j) = some k →
+      step (decOf env) (cfgOf env io coe fe sr) (s.drop (j + k)) = .adv 0 y →
+      (∀ q, yieldsOf io (yielded q y) = ym) →
+      ∃ v', while_1.loop env fuel v = .raise .outOfFuel v' ∧
+        v'.py_yields = v.py_yields ++ (List.replicate fuel ym).flatten := by
+  intro fuel
+  induction fuel with
+  | zero => intro v j k _ _ _ _ _; exact ⟨v, rfl, by simp⟩
+  | succ fuel ih =>
+    intro v j k hinv hj hk hstep hym
+    have hlt := findSig_lt _ _ hk
+    simp only [List.length_drop] at hlt
+    have hcond : while_1.cond env v = true := by
+      rw [cond_iff env s io coe fe sro v j hinv]; simp; omega
+    have hb := body_step env hcb s io coe fe sro sr hsro v j k hinv hj hk
+    rw [hstep] at hb
+    obtain ⟨v1, j1, hb1, hinv1, _, hj1, hy1⟩ := hb
+    have hj1' := hj1 rfl
+    subst hj1'
+    have hpre := findSig_prefix _ _ hk
+    rw [List.drop_drop] at hpre
+    have hk1 : findSig (s.drop (j + k)) = some 0 := findSig_at _ hpre
+    obtain ⟨v', hl, hy'⟩ := ih v1 (j + k) 0 hinv1 (by omega) hk1 (by simpa using hstep) hym
+    refine ⟨v', ?_, ?_⟩
+    · simp [while_1.loop, hcond, hb1, hl]
+    · rw [hy', hy1]
+      have := hym (j + k)
+      simp only [yieldsOf] at this
+      rw [this, List.replicate_succ, List.flatten_cons, List.append_assoc]
+
+/-- the translated loop against `scanFuel` -/
+def LoopOk (env : Env) (io : Bool) (ys : List Msg) (r : List (Item Msg) × Outcome) (g : Py.Flow Locals) : Prop :=
+  match r.2 with
+  | .done => ∃ v', (g = .next v' ∨ g = .ret v') ∧ v'.py_yields = ys ++ yieldsOf io r.1
+  | .error e => ∃ x v', g = .raise x v' ∧ toErr env x = e ∧ v'.py_yields = ys ++ yieldsOf io r.1
+  | .loops => ∃ v', g = .raise .outOfFuel v' ∧ (ys ++ yieldsOf io r.1) <+: v'.py_yields
+
+theorem loop_sim (env : Env) (hcb : CbOk env) (s : Bytes) (io coe : Bool) (fe : Option (List Char))
+    (sro : Option Py.Obj) (sr : Py.Obj) (hsro : Py.truthyOptSeq fe = true → sro = some sr) :
+    ∀ (fuel : Nat) (v : Locals) (j p : Nat), Inv s io coe fe sro v j →
+      (j = p ∨ (s.length ≤ j ∧ s.length ≤ p)) → s.length - j < fuel →
+      LoopOk env io v.py_yields (scanFuel (decOf env) (cfgOf env io coe fe sr) fuel p (s.drop p))
+        (while_1.loop env fuel v) := by
+  intro fuel
+  induction fuel with
+  | zero => intro v j p _ _ h; omega
+  | succ fuel ih =>
+    intro v j p hinv hjp hf
+    by_cases hge : s.length ≤ j
+    · -- past the end: the loop test fails; the model finds no signature in the empty rest
+      have hcond : while_1.cond env v = false := by
+        rw [cond_iff env s io coe fe sro v j hinv]; simp; omega
+      have hp : s.length ≤ p := by omega
+      have hnil : s.drop p = [] := List.drop_eq_nil_of_le hp
+      simp only [hnil, scanFuel, findSig, LoopOk]
+      exact ⟨v, Or.inl (by simp [while_1.loop, hcond]), by simp [yieldsOf]⟩
+    · have hjp' : j = p := by omega
+      subst hjp'
+      have hj : j ≤ s.length := by omega
+      have hcond : while_1.cond env v = true := by
+        rw [cond_iff env s io coe fe sro v j hinv]; simp; omega
+      cases hk : findSig (s.drop j) with
+      | none =>
+        obtain ⟨v', hb, hy⟩ := body_none env s io coe fe sro v j hinv hj hk
+        simp only [scanFuel, hk, LoopOk]
+        exact ⟨v', Or.inr (by simp [while_1.loop, hcond, hb]), by simp [yieldsOf, hy]⟩
+      | some k =>
+        have hb := body_step env hcb s io coe fe sro sr hsro v j k hinv hj hk
+        simp only [scanFuel, hk, List.drop_drop]
+        cases hstep : step (decOf env) (cfgOf env io coe fe sr) (s.drop (j + k)) with
+        | fail e =>
+          rw [hstep] at hb
+          obtain ⟨x, v', hb1, hx, hy⟩ := hb
+          simp only [LoopOk]
+          exact ⟨x, v', by simp [while_1.loop, hcond, hb1], hx, by simp [yieldsOf, hy]⟩
+        | adv n y =>
+          cases n with
+          | zero =>
+            obtain ⟨v', hl, hy⟩ := stuck env hcb s io coe fe sro sr hsro y (yieldsOf io (yielded 0 y))
+              (fuel + 1) v j k hinv hj hk hstep (by intro q; cases y <;> rfl)
+            simp only [LoopOk]
+            refine ⟨v', hl, ?_⟩
+            rw [hy, List.replicate_succ, List.flatten_cons, ← List.append_assoc]
+            have : yieldsOf io (yielded (j + k) y) = yieldsOf io (yielded 0 y) := by cases y <;> rfl
+            rw [this]
+            exact List.prefix_append _ _
+          | succ n =>
+            rw [hstep] at hb
+            obtain ⟨v1, j1, hb1, hinv1, hj1, _, hy1⟩ := hb
+            have hlt := findSig_lt _ _ hk
+            simp only [List.length_drop] at hlt
+            have ih1 := ih v1 j1 (j + k + (n + 1)) hinv1 hj1 (by omega)
+            have hloop : while_1.loop env (fuel + 1) v = while_1.loop env fuel v1 := by
+              simp [while_1.loop, hcond, hb1]
+            rw [hloop]
+            simp only [LoopOk] at ih1 ⊢
+            rw [hy1] at ih1
+            cases hout : (scanFuel (decOf env) (cfgOf env io coe fe sr) fuel (j + k + (n + 1)) (s.drop (j + k + (n + 1)))).2 with
+            | done =>
+              rw [hout] at ih1
+              simpa [yieldsOf, List.append_assoc] using ih1
+            | error e =>
+              rw [hout] at ih1
+              simpa [yieldsOf, List.append_assoc] using ih1
+            | loops =>
+              rw [hout] at ih1
+              simpa [yieldsOf, List.append_assoc] using ih1
+
+
+/-! ### the whole generator -/
+
+/-- what `generate_bufr_message` does, read off the model's `scan`: the values yielded and how the generator ends.
+    `loops` (the real generator never terminates: an iteration advanced by 0) shows in the translation as the fuel of
+    the `while` loop running out after the model's items have been yielded (and yielded again). -/
+def Agrees (env : Env) (io : Bool) (r : List (Item Msg) × Outcome) (g : List Msg × Except Py.Exc Unit) : Prop :=
+  match r.2 with
+  | .done => g = (yieldsOf io r.1, .ok ())
+  | .error e => ∃ x, g = (yieldsOf io r.1, .error x) ∧ toErr env x = e
+  | .loops => g.2 = .error .outOfFuel ∧ yieldsOf io r.1 <+: g.1
+
+theorem generate_sim (env : Env) (hcb : CbOk env) (s : Bytes) (io coe : Bool) (fe : Option (List Char)) (sr : Py.Obj)
+    (hsr : fe.isSome = true → env.ScriptRunner fe = .ok sr) :
+    Agrees env io (scan (decOf env) (cfgOf env io coe fe sr) s) (generate_bufr_message env s io coe fe) := by
+  let sro : Option Py.Obj := if fe.isSome then some sr else none
+  have hsro : Py.truthyOptSeq fe = true → sro = some sr := by
+    intro h
+    cases fe with
+    | none => simp [Py.truthyOptSeq] at h
+    | some x => rfl
+  let v0 : Locals := ⟨s, io, coe, fe, sro, Int.ofNat 0, false, default, {}, {}, {}, default, []⟩
+  have hinv : Inv s io coe fe sro v0 0 := ⟨rfl, rfl, rfl, rfl, rfl, rfl⟩
+  have hl := loop_sim env hcb s io coe fe sro sr hsro (s.length + 1) v0 0 0 hinv (Or.inl rfl) (by omega)
+  have hgen : generate_bufr_message env s io coe fe =
+      ((Py.Flow.finish (while_1.loop env (s.length + 1) v0)).1.py_yields,
+       (Py.Flow.finish (while_1.loop env (s.length + 1) v0)).2) := by
+    cases fe with
+    | none => simp [generate_bufr_message, Py.Flow.bind, Py.Flow.eval, v0, sro, pure, Except.pure]
+    | some x =>
+      have := hsr rfl
+      simp [generate_bufr_message, Py.Flow.bind, Py.Flow.eval, v0, sro, pure, Except.pure, this, bind, Except.bind]
+  rw [hgen]
+  have hv0 : v0.py_yields = [] := rfl
+  simp only [List.drop_zero] at hl
+  unfold scan
+  simp only [LoopOk, Agrees, hv0, List.nil_append] at hl ⊢
+  cases hout : (scanFuel (decOf env) (cfgOf env io coe fe sr) (s.length + 1) 0 s).2 with
+  | done =>
+    rw [hout] at hl
+    obtain ⟨v', hg, hy⟩ := hl
+    rcases hg with hg | hg <;> (rw [hg]; simp only [Py.Flow.finish, hy])
+  | error e =>
+    rw [hout] at hl
+    obtain ⟨x, v', hg, hx, hy⟩ := hl
+    refine ⟨x, ?_, hx⟩
+    rw [hg]; simp only [Py.Flow.finish, hy]
+  | loops =>
+    rw [hout] at hl
+    obtain ⟨v', hg, hy⟩ := hl
+    rw [hg]
+    exact ⟨rfl, hy⟩
+
+/-- when `ScriptRunner(filter_expr)` itself raises (a filter expression that does not compile), the generator raises
+    that exception at its first `next()`, before anything is yielded -/
+theorem generate_bad_filter (env : Env) (s : Bytes) (io coe : Bool) (x : List Char) (e : Py.Exc)
+    (h : env.ScriptRunner (some x) = .error e) :
+    generate_bufr_message env s io coe (some x) = ([], .error e) := by
+  simp [generate_bufr_message, Py.Flow.bind, Py.Flow.eval, Py.Flow.finish, h, bind, Except.bind]
+
+
+/-! ### the continue-on-error policy, read off the translated source -/
+
+/-- by how much the handler moves the scan position after a library error at a signature (no filter):
+    info-only mode 1; otherwise the `length.value` of a metadata-only decode at the same place, 1 when that fails with a
+    library error too -/
+def resumeBy (env : Env) (io : Bool) (rest : Bytes) : Int :=
+  if io then 1 else
+    match env.decoder_process rest true with
+    | .ok mi => mi.length_value
+    | .error _ => 1
+
+theorem resume_step (env : Env) (s : Bytes) (io : Bool) (fe : Option (List Char)) (sro : Option Py.Obj)
+    (v : Locals) (j k : Nat) (hinv : Inv s io true fe sro v j) (hj : j ≤ s.length)
+    (hk : findSig (s.drop j) = some k) (hft : Py.truthyOptSeq fe = false) (e : Py.Exc)
+    (hfail : env.decoder_process (s.drop (j + k)) io = .error e) (hlib : env.isinstance_PyBufrKitError e = true)
+    (h2 : ∀ e2, io = false → env.decoder_process (s.drop (j + k)) true = .error e2 → env.isinstance_PyBufrKitError e2 = true) :
+    ∃ v', while_1.body env v = .next v' ∧ v'.idx_start = ((j + k : Nat) : Int) + resumeBy env io (s.drop (j + k)) ∧
+      v'.py_yields = v.py_yields ∧ v'.s = s ∧ v'.info_only = io ∧ v'.continue_on_error = true := by
+  obtain ⟨vs, vio, vcoe, vfe, vsr, vidx, vmatched, vmsg, vu, vb, vd, ve, vy⟩ := v
+  obtain ⟨h1, h2', h3, h4, h5, h6⟩ := hinv
+  simp only at h1 h2' h3 h4 h5 h6
+  subst h1 h2' h3 h4 h5 h6
+  have hfind : Py.seqFind vs MESSAGE_START_SIGNATURE (j : Int) = ((j + k : Nat) : Int) := by
+    rw [seqFind_findSig vs j hj, hk]
+  generalize hp : j + k = p at *
+  have hrest := sliceSeq_from vs p
+  have hnn : ¬ ((p : Int) < 0) := by omega
+  cases vio with
+  | true =>
+    simp [while_1.body, Py.Flow.bind, Py.Flow.eval, Py.Flow.tryExcept, hft, hfail, hfind, hnn, hrest, hlib, resumeBy]
+  | false =>
+    cases hr2 : env.decoder_process (vs.drop p) true with
+    | ok mi =>
+      simp [while_1.body, Py.Flow.bind, Py.Flow.eval, Py.Flow.tryExcept, hft, hfail, hr2, hfind, hnn, hrest, hlib, resumeBy]
+    | error e2 =>
+      have hl2 := h2 e2 rfl hr2
+      simp [while_1.body, Py.Flow.bind, Py.Flow.eval, Py.Flow.tryExcept, hft, hfail, hr2, hfind, hnn, hrest, hlib, hl2,
+        resumeBy]
+
 end Bufr.Stream
